@@ -63,6 +63,7 @@ static CO_ERR COTSyncCycleWrite(struct CO_OBJ_T *obj, struct CO_NODE_T *node, vo
 {
     const CO_OBJ_TYPE *uint32 = CO_TUNSIGNED32;
     CO_ERR   result;
+    CO_ERR   err;
     CO_SYNC *sync;
     uint32_t nus, ous;
 
@@ -86,8 +87,13 @@ static CO_ERR COTSyncCycleWrite(struct CO_OBJ_T *obj, struct CO_NODE_T *node, vo
 
     /* Reactivate sync producer with new cycle value */
     if ((sync->CobId & CO_SYNC_COBID_ON) != 0) {
+        /* detect the resolution error of this activation, only */
+        err = node->Error;
+        node->Error = CO_ERR_NONE;
         COSyncProdActivate(sync);
-        if (node->Error == CO_ERR_SYNC_RES) {
+        if (node->Error == CO_ERR_NONE) {
+            node->Error = err;
+        } else if (node->Error == CO_ERR_SYNC_RES) {
             /*
              * Restore old SYNC cycle value because used timer has
              * resolution that is not able to produce SYNCs with new
